@@ -6,4 +6,5 @@ EXES = [
     {"name": "mutexh", "sources": ["harness/mutexh.cpp"]},
     {"name": "events", "sources": ["harness/events.cpp"]},
     {"name": "scopes", "sources": ["harness/scopes.cpp"]},
+    {"name": "futures", "sources": ["harness/futures.cpp"]},
 ]
